@@ -141,6 +141,24 @@ class _Quiet:
         return lambda *a, **k: None
 
 
+def _with_deferred(sched, n):
+    """in every other schedule, a REQ or CLOSE that follows another connection's EVENT is held back until that event's
+    fan-out is suspended in the storage layer (the moment at which a registry change is most delicate)"""
+    if n % 2:
+        return sched
+    out = []
+    last = None
+    for step in sched:
+        if step[0] == "msg" and step[2]["m"] in ("REQ", "CLOSE") and last is not None and last[0] == "msg" and last[2]["m"] == "EVENT" \
+                and last[1] != step[1]:
+            out.append(("defer", step[1], step[2]))
+        else:
+            out.append(step)
+        if step[0] in ("msg", "idle"):
+            last = step
+    return out
+
+
 def _worker(payload):
     from .. import relaydrv, storedrv
 
@@ -193,6 +211,7 @@ def run(prop, tier, seed, backends=BACKENDS, only_universe=None):
         sc, gstats = relaytrace.gen_relay_schedules(uni, NCONNS, SIDS, FILTER_LISTS, SUBLIMIT, backend, depth, num, seed + vn)
         out.add_model(gstats)
         sc = sorted(sc, key=repr)
+        sc = [_with_deferred(x, n) for n, x in enumerate(sc)]
         rnd.shuffle(sc)
         scheds[backend] = sc[:cap[backend] // (1 if len(variants) == 1 else 2)]
       payloads = []
